@@ -33,7 +33,7 @@ PIDS = ["doi:10.1/cli", "pid2"]
 
 
 def examples(tier):
-    return 900 if tier == "quick" else 8000
+    return 900 if tier == "quick" else 40000
 
 
 @st.composite
